@@ -180,3 +180,16 @@ Print Assumptions C11_operations_serialised.
 Theorem C11_lock_discipline : Gen.lock_discipline_table = true.
 Proof. repeat split; reflexivity. Qed.
 Print Assumptions C11_lock_discipline.
+
+(* ---------- the best route to a destination never gets worse through AddRoute (TableBest.v) ---------- *)
+(* If the table holds a route to d with at most k hops, it still does after any successful
+   AddRoute of a system-producible route (replacements inside a destination's section put an equal
+   route or a better one in place).  Used by C10_gossip_mesh_delivers. *)
+From Verif Require Import TableBest.
+Theorem C11_add_route_never_worsens_best : forall cfg now t e0 t' b d k,
+  sorted t -> tpwf t -> tswf t ->
+  (e_source e0 = src_peer -> (length (e_path e0) <= 2)%nat) ->
+  (e_source e0 <> src_peer -> (3 <= length (e_path e0) <= 255)%nat) ->
+  add_route cfg now t e0 = Ok (t', b) -> reach_le t d k -> reach_le t' d k.
+Proof. exact add_route_best_mono. Qed.
+Print Assumptions C11_add_route_never_worsens_best.
